@@ -816,8 +816,9 @@ MAIN = {
     ),
     "C04": dict(
         mc=dict(quick=SEARCH_Q, thorough=SEARCH_T),
-        traces=dict(quick=[dict(profile="search", jobs=8, count=30)],
-                    thorough=[dict(profile="search", jobs=16, count=400), dict(profile="forest", jobs=8, count=400, seed_off=100)]),
+        traces=dict(quick=[dict(profile="search", jobs=8, count=30), dict(family="skewed", jobs=4, count=5, seed_off=60)],
+                    thorough=[dict(profile="search", jobs=16, count=400), dict(profile="forest", jobs=8, count=400, seed_off=100),
+                              dict(family="skewed", jobs=8, count=40, seed_off=60)]),
         distinct=distinct_forests, sample_event="Build",
     ),
     "C05": dict(
